@@ -109,6 +109,20 @@ func collSpecs(r *Run, oracles []string, classes []string) []Spec {
 	return cs
 }
 
+// collCompactSpecs: same-typed composite maps (compact form, shared type information) as the VALUES of colliding
+// keys: inside inline groups, external group slabs and digest-less lists (every step-th digest assignment).
+func collCompactSpecs(r *Run, oracles []string, step int) []Spec {
+	var cs []Spec
+	for ai, a := range DigestAssignments(3) {
+		if ai%step != 0 {
+			continue
+		}
+		cs = append(cs, Spec{Name: fmt.Sprintf("coll-compact-T256-a%d", ai), Kind: "coll", T: 256, Keys: 3, Classes: []string{"Mc:t,u5", "s60"},
+			Oracles: oracles, Digests: a, Limit: 255, Extra: map[string]int{"limit": 1}})
+	}
+	return cs
+}
+
 // nestedFor returns the nested-container universe (children mutated through handles) with the given oracles.
 func nestedFor(r *Run, oracles []string) []Spec {
 	specs := nestedSpecs(r, false, oracles)
@@ -177,6 +191,7 @@ func init() {
 		r.ExploreSpecs(cl)
 		r.ExploreSpecs(tr)
 		r.ExploreSpecs(collSpecs(r, or, []string{"t", "s60", "A:t"}))
+		r.ExploreSpecs(collCompactSpecs(r, or, 4))
 		r.ExploreSpecs(nestedFor(r, append([]string{"events"}, or...)))
 		// containers produced by the bulk constructors report sizes too (root/non-root prefix conversion
 		// when the built leaves are merged into a root)
@@ -190,6 +205,7 @@ func init() {
 		r.ExploreSpecs(cl)
 		r.ExploreSpecs(tr)
 		r.ExploreSpecs(collSpecs(r, or, []string{"t", "s60", "A:t"}))
+		r.ExploreSpecs(collCompactSpecs(r, or, 4))
 		r.ExploreSpecs(nestedFor(r, append([]string{"events"}, or...)))
 	}})
 	RegisterCheck(&CheckDef{ID: "C09", Level: "model_checking", Run: func(r *Run) {
